@@ -125,13 +125,21 @@ def _profile_once(case):
     schema = RelationSchema(name="t", columns=[FlatColumn(name="v", type="INTEGER")])
     df = DataFrame(rows=[(v,) for v in _profile_values(case)], schema=schema)
     cp = TableProfile.from_dataframe(df).column("v")
+    if "values_b" in case:
+        # the profile asked is the SUM of two profiles, the left one having already answered an estimate
+        # (whatever it cached for itself must not be what the sum answers from)
+        if case.get("warm_left", True) and cp.minimum is not None:
+            try:
+                cp.estimate_values_below(cp.minimum)
+            except Exception:
+                pass
+        dfb = DataFrame(rows=[(v,) for v in case["values_b"]], schema=schema)
+        cp = cp + TableProfile.from_dataframe(dfb).column("v")
     hist = [[float(v).hex(), int(c)] for v, c in cp.histogram]
     out = {"count": int(cp.count), "missing": int(cp.missing), "minimum": cp.minimum, "maximum": cp.maximum, "hist": hist, "answers": []}
     for p in case["probes"]:
         x = float.fromhex(p)
         try:
-            if hasattr(cp, "distogram"):
-                delattr(cp, "distogram")
             b = cp.estimate_values_below(x)
             a = cp.estimate_values_above(x)
             out["answers"].append([None if b is None else float(b).hex(), None if a is None else float(a).hex()])
@@ -330,6 +338,8 @@ def nontrivial_key(case, obs):
         return repr(case["prog"]) if len(vals) >= 3 else None
     if "spec" in case:
         return repr(case["spec"])
+    if "values_b" in case:
+        return repr((case["values"], case["values_b"]))
     return repr(case["values"]) if len(set(v for v in case["values"] if v is not None)) >= 3 else None
 
 
@@ -409,6 +419,17 @@ def _profile_case(rng):
     return {"kind": "profile", "values": vals, "probes": [float(p).hex() for p in probes]}
 
 
+def _sum_profile_case(rng):
+    """profile(a) answers an estimate, then profile(a) + profile(b) is asked"""
+    a = _profile_case(rng)
+    b = _profile_case(rng)
+    vals_a, vals_b = a["values"], b["values"]
+    nn = [v for v in vals_a + vals_b if v is not None]
+    lo, hi = min(nn), max(nn)
+    probes = sorted(set([float(lo), float(hi)] + [float(rng.randint(lo, hi)) for _ in range(8)] + [lo + (hi - lo) * i / 10.0 for i in range(11)]))
+    return {"kind": "profile", "values": vals_a, "values_b": vals_b, "warm_left": rng.random() < 0.8, "probes": [float(p).hex() for p in probes]}
+
+
 def _big_profile_case(rng):
     """a column longer than the profiler's 25000-row morsel (so per-morsel profiles are added), profiled twice"""
     block = 25000
@@ -436,6 +457,9 @@ def corpus():
     yield {"kind": "hist", "prog": [["new", 0, 16], ["bulk", 0, ["-0x1.b3d0b00000000p+2"], "float32"], ["bulk", 0, ["-0x1.fdfa180000000p+7"], "float32"]],
            "xs": ["-0x1.fdfa180000001p+7", "-0x1.fdfa180000000p+7", "-0x1.b3d0b00000000p+2", "-0x1.b3d0affffffffp+2", "0x1.45df0e8e74735p+1"],
            "qs": [h(q) for q in (-0.25, 0, 0.5, 0.875, 1)]}
+    # F-C14-5: the sum of two profiles answered from the left operand's cached histogram
+    yield {"kind": "profile", "values": list(range(0, 10)), "values_b": list(range(100, 120)), "warm_left": True,
+           "probes": [h(x) for x in (0, 5, 50, 110, 119)]}
     # query / exact-hit update / query on one object (round-2 seeded change: a cached total went stale)
     yield {"kind": "hist", "prog": [["new", 0, 4]] + [["upd", 0, h(v), 1] for v in (1, 2, 3, 4, 5)] + [["upd", 0, h(5), 5]],
            "warm_at": 6, "warm": [["count_at", 0, h(3)], ["quantile", 0, h(0.5)]],
@@ -447,6 +471,8 @@ def generate(rng, tier):
     for i in range(n):
         if i % 40 == 39:
             yield _big_profile_case(rng)
+        elif i % 10 == 9:
+            yield _sum_profile_case(rng)
         elif i % 5 == 4:
             c = _profile_case(rng)
             if rng.random() < 0.3:
